@@ -108,6 +108,13 @@ def obligations(tier, seed):
                       contract='compile-time classification / evaluation on boundary magnitudes (constants of the lowered code vs independently computed answers): '
                                + ', '.join(f[0] for f in facts[i:i + step]),
                       functions_under_contract=('au::representable_in', 'au::get_value', 'au::is_integer', 'au::is_rational', 'au::numerator', 'au::denominator', 'au::integer_part')))
+    # ---- the same boundary facts as supporting static facts (one probe TU each): a hard error or a different answer is attributed to its instance
+    HDR = '#include "au/magnitude.hh"\n#include <cstdint>\n#define VF_STATIC_FACT(c) static_assert(c, "VF_STATIC_FACT")\n'
+    sel = facts if tier == 'thorough' else [f for f in facts if f[0].startswith(('rep_u8', 'rep_i8', 'val_u8', 'val_i64_max', 'val_u64', 'rep_f32', 'rep_f64_2', 'rep_u64', 'rep_i64_2', 'val_i16'))]
+    for (nm, expr, exp) in sel:
+        obs.append(Ob(id='C11.static.%s' % nm, prop='C11', group='C11.static', prelude='', wrappers=[], inputs=[],
+                      body=HDR + 'VF_STATIC_FACT((%s) == %s);\nint main() {}\n' % (expr, 'true' if exp else 'false'), kind='S',
+                      contract='static fact: (%s) == %s' % (expr, bool(exp)), functions_under_contract=('au::representable_in / get_value (compile-time)',)))
     # ---- guarded products: outcome OK ==> no multiplication wrapped / overflowed, no division by zero (own loop VCs, int-blast route)
     for (T, code, sgn) in ((('uint64_t', 'm', False), ('int64_t', 'l', True)) if tier == 'thorough' else (('uint64_t', 'm', False),)):
         tgt = '_ZN2au6detail15checked_int_powI%sEENS0_24MagRepresentationOrErrorIT_EES3_m' % code
